@@ -710,7 +710,9 @@ func c01scaledKey(c *Ctx, sc scope, key ssa.Value, depth int) (bool, string) {
 
 // c01sizeDiscipline: WriteAtAddress of element bytes / writeChunkedData happen only after the byte count was compared
 // with dataSize and the unequal edge left with an error.
-func c01sizeDiscipline(c *Ctx, r *Result) {
+func c01sizeDiscipline(c *Ctx, r *Result) { sizeDisciplineRule(c, r, "C01.3") }
+
+func sizeDisciplineRule(c *Ctx, r *Result, rule string) {
 	for _, name := range []string{"hdf5.DatasetWriter.Write", "hdf5.DatasetWriter.WriteRaw", "hdf5.DatasetWriter.writeChunkedData"} {
 		fn := c.Fn(r, name)
 		if fn == nil {
@@ -813,10 +815,10 @@ func c01sizeDiscipline(c *Ctx, r *Result) {
 					ok = true
 				}
 			}
-			r.Check(ok, "C01.3", c.Name(fn)+"#"+lastSeg(n)+"#after-size-check", c.InstrPos(in), "the bytes handed to "+lastSeg(n)+" were compared with the dataset's dataSize and a mismatch returned an error")
+			r.Check(ok, rule, c.Name(fn)+"#"+lastSeg(n)+"#after-size-check", c.InstrPos(in), "the bytes handed to "+lastSeg(n)+" were compared with the dataset's dataSize and a mismatch returned an error")
 		}
 	}
-	r.Floor("C01.3", 4)
+	r.Floor(rule, 4)
 }
 
 func lastSeg(n string) string {
